@@ -559,6 +559,12 @@ class Fn:
                 # read through a computed pointer: oracle `rd_<field> : Nat → T`
                 sp = arrow_split(n)
                 if not sp:
+                    b0 = strip(n['inner'][0])
+                    if (not n.get('isArrow')) and b0.get('kind') == 'DeclRefExpr' and b0['referencedDecl'].get('kind') == 'VarDecl' \
+                            and b0['referencedDecl']['name'] not in self.locals and b0['referencedDecl']['name'] not in self.pnames:
+                        # field of a global struct variable (`mi_os_mem_config.has_partial_free`): oracle value
+                        gn = 'g_' + b0['referencedDecl']['name'] + '_' + n['name']
+                        return self.addx(gn, self.lty(dq(n)), ('ext', gn))
                     raise TranslateError('member of local struct')
                 b, fld = sp
                 nm = 'rd_' + fld
